@@ -112,13 +112,33 @@ def job_elastic(cfg):
     unknowns = ["x", "y", "z"][:dim]
     key = f"elastic {cfg['elem']} {cfg['law']} {cfg.get('variant', 'plain')}"
     res.functions |= {"_Simu.add_dirichlet", "_Simu.__Bc_evaluate", "_Simu.Assembly", "_Simu._Solver_Apply_Neumann", "_Simu._Solver_Apply_Dirichlet",
-                      "Solvers.Solve_simu", "Solvers.__Solver_1", "_Simu._Solver_Update_solutions", "_Simu.Bc_dofs_known_unknown", "Elastic.Result",
+                      "Solvers.Solve_simu", "Solvers.__Solver_1", "Solvers.__Solver_2", "_Simu._Solver_Update_solutions", "_Simu.Bc_dofs_known_unknown", "Elastic.Result",
                       "Elastic._Calc_Epsilon_e_pg", "Elastic._Calc_Sigma_e_pg", "Elastic._Calc_Psi_Elas", "Models._utils.Result_strain_or_stress_field_e",
                       "_Elastic.Calc_Epsilon_e_pg", "_Elastic.Calc_Sigma_e_pg", "_Elastic.Calc_Psi_e_pg", "_GroupElem.Get_B_e_pg", "Bilinear.LinearizedElasticity"}
+    tie = cfg.get("variant") == "tie"
+    interior_nodes = [n for n in range(mesh.Nn) if n not in set(bnodes.tolist())]
+
+    def enter_conditions(sm, field, values_of_tie):
+        """field(d) -> callable for component d.  'tie': the boundary field is entered one call per component, last component first (prescribed dofs
+        not in ascending order, none entered twice), and two interior nodes are tied by Lagrange conditions that the exact field satisfies"""
+        if not tie:
+            sm.add_dirichlet(bnodes, [field(d) for d in range(dim)], unknowns)
+            return
+        from EasyFEA.FEM._boundary_conditions import LagrangeCondition
+
+        for d in reversed(range(dim)):
+            sm.add_dirichlet(bnodes[::-1], [field(d)], [unknowns[d]])
+        na, nb = interior_nodes[0], interior_nodes[-1]
+        for d in range(dim):
+            nodes = np.array([na, nb])
+            dofs = sm.Bc_dofs_nodes(nodes, [unknowns[d]], sm.problemType)
+            sm._Bc_Add_Lagrange(LagrangeCondition(sm.problemType, nodes, dofs, [unknowns[d]], np.asarray([values_of_tie(d, na, nb)], dtype=object), np.asarray([1.0, -1.0]), "tie"))
+
     mark = c.mark()
     with facade.symbolic(), stubs.enclosing_linear_solver():
-        vals = [(lambda x, y, z, d=d: _lin(a, d, x, y, z, dim)) for d in range(dim)]
-        simu.add_dirichlet(bnodes, vals, unknowns)
+        Xs = mesh.coord
+        enter_conditions(simu, lambda d: (lambda x, y, z, d=d: _lin(a, d, x, y, z, dim)),
+                         lambda d, na, nb: _lin(a, d, *[Fraction(float(v)) for v in Xs[na]], dim) - _lin(a, d, *[Fraction(float(v)) for v in Xs[nb]], dim))
         u = simu.Solve()
         strain = simu.Result("Strain", nodeValues=False)
         stress = simu.Result("Stress", nodeValues=False)
@@ -139,8 +159,9 @@ def job_elastic(cfg):
         af = np.array([[fval(env, a[i, j]) for j in range(dim + 1)] for i in range(dim)])
         s2 = Simulations.Elastic(make_mesh(cfg), make_material(cfg["law"], dim), verbosity=False)
         s2.solver = "scipy"
-        vals2 = [(lambda x, y, z, d=d: af[d, 0] + af[d, 1] * x + af[d, 2] * y + (af[d, 3] * z if dim == 3 else 0)) for d in range(dim)]
-        s2.add_dirichlet(bnodes, vals2, unknowns)
+        lin2 = lambda d, x, y, z: af[d, 0] + af[d, 1] * x + af[d, 2] * y + (af[d, 3] * z if dim == 3 else 0)
+        X2 = s2.mesh.coord
+        enter_conditions(s2, lambda d: (lambda x, y, z, d=d: lin2(d, x, y, z)), lambda d, na, nb: float(lin2(d, *X2[na]) - lin2(d, *X2[nb])))
         uf = s2.Solve().reshape(-1, dim)
         X = s2.mesh.coord
         exact = np.stack([af[d, 0] + X[:, :dim] @ af[d, 1:] for d in range(dim)], axis=1)
@@ -384,6 +405,7 @@ def main():
             {"sim": "elastic", "elem": "PRISM6", "law": "aniso", "variant": "renum"},
             {"sim": "elastic", "elem": "TRI6", "law": "iso_stress", "variant": "mirror"}, {"sim": "elastic", "elem": "HEXA8", "law": "iso", "variant": "mirror"},
             {"sim": "thermal", "elem": "QUAD4", "variant": "mirror"},
+            {"sim": "elastic", "elem": "TRI3", "law": "iso_strain", "variant": "tie"}, {"sim": "elastic", "elem": "QUAD8", "law": "trans", "variant": "tie"},
             {"sim": "thermal", "elem": "SEG3"}, {"sim": "thermal", "elem": "TRI10", "variant": "affine"},
             {"sim": "thermal", "elem": "QUAD9", "variant": "renum"}, {"sim": "thermal", "elem": "TETRA10", "variant": "plain"},
         ]
